@@ -249,6 +249,26 @@ def execute(scn):
                     res["findings"].append({"prop": prop, "clause": "spice-partition:" + diffs2[0].split(":")[0], "detail": diffs2[:4]})
                 elif ok2:
                     probe("spice_reading_agrees")
+    # after the export: a connection edit on an instance of the (now elaborated) top is either
+    # refused, or the package exported next is still closed (C06: *every* returned package)
+    if scn["mode"] == "c01" and not res["findings"] and hash64(scn.get("seed"), "late") % 3 == 0:
+        env = it.mods[top]
+        insts = sorted(n for n, info in design.mods[top].insts.items() if info["kind"] == "inst" and n in env.objs)
+        sigs = sorted(n for n in design.mods[top].sigs if n in env.objs)
+        if insts and sigs and env.module is not None:
+            live = env.module.instances.get(insts[hash64(scn.get("seed"), "li") % len(insts)])
+            try:
+                if live is None:
+                    raise LookupError
+                live.connect("nosuchport_z", env.objs[sigs[0]])
+                probe("late_connection_accepted")
+                r3 = it.run(["to_proto", [top], True])
+                if r3["ok"]:
+                    cv = netview.closed_violations(r3["pkg"], prim_ports(), check_tools=False)
+                    if cv:
+                        res["findings"].append({"prop": "C06", "clause": "closed", "detail": cv[:3] + ["(package exported after a connection was made on an instance of the elaborated module)"]})
+            except Exception:  # noqa
+                probe("late_connection_refused")
     res["nontrivial"] = len(model["leaves"]) >= 1
     if scn["mode"] == "c05":
         res["nontrivial"] = res["nontrivial"] and scn.get("adv", 0) > 0
